@@ -14,6 +14,7 @@ mod sel;
 mod enc;
 mod attrs;
 mod tb;
+mod tok;
 
 // live heap bytes (C10 growth probe): a counting wrapper around the system allocator
 struct Counting;
@@ -488,12 +489,15 @@ fn main() {
         std::process::exit(if r.violations.is_empty() { 0 } else { 1 });
     }
     if prop == "C03" {
-        let r = tb::run_c03();
+        let mut r = tb::run_c03();
+        let t = tok::run_tok(max_len);
+        r.cases += t.cases;
+        r.violations.extend(t.violations);
         let mut classes: std::collections::BTreeMap<String, Vec<String>> = Default::default();
         for (k, v) in r.classified { let e = classes.entry(k).or_default(); if e.len() < 2 { e.push(v); } }
         let cls: Vec<String> = classes.iter().map(|(k, v)| format!("\"known_class_{}\":[{}]", k, v.join(","))).collect();
-        println!("{{\"property\":\"C03\",\"cases\":{},\"alphabet\":\"{} conformance cases (foreign content, integration points, text-type switches)\",\"exhaustive_len\":0,\"seed_documents\":{},\"max_cuts\":1,\"tb_mode\":true,\"violations\":[{}]{}{}}}",
-            r.cases, tb::CASES.len(), tb::CASES.len(), r.violations.join(","), if cls.is_empty() { "" } else { "," }, cls.join(","));
+        println!("{{\"property\":\"C03\",\"cases\":{},\"alphabet\":\"{} conformance cases (foreign content, integration points, text-type switches) + reference-tokenizer differential over `<>/!-a= \\\"'?`\",\"exhaustive_len\":{},\"seed_documents\":{},\"max_cuts\":1,\"tb_mode\":true,\"violations\":[{}]{}{}}}",
+            r.cases, tb::CASES.len(), max_len, tb::CASES.len(), r.violations.join(","), if cls.is_empty() { "" } else { "," }, cls.join(","));
         std::process::exit(if r.violations.is_empty() { 0 } else { 1 });
     }
     if prop == "C13" {
